@@ -180,6 +180,11 @@ def d1_keys(ctx):
         sub0 = [n for n in own_nodes(f.node) if isinstance(n, ast.Assign) and isinstance(n.targets[0], ast.Subscript)
                 and norm(n.targets[0].value) == v.id and isinstance(n.targets[0].slice, ast.Constant) and n.targets[0].slice.value == 0]
         ok = any('.shape' in norm(x) for x in ds) and len(sub0) == 1
+        if not ok:
+            # built in one go from the accumulator and the first chunk's trailing extents
+            ok = any(isinstance(x, (ast.BinOp, ast.Tuple, ast.List)) and '.shape[1:]' in norm(x) and
+                     any(isinstance(y, ast.Name) and any(isinstance(st_, ast.AugAssign) for _, st_ in defs_of(f.node, y.id))
+                         for y in ast.walk(x)) for x in ds)
     ctx.decide(ok, 'R-FLOW', 'D1', f, v, 'shape-written',
                'the shape written is the first chunk\'s shape with the first extent replaced by the accumulated length',
                detail='descriptor shape is the chunk shape (first extent not replaced) or unrelated')
